@@ -408,6 +408,10 @@ async fn on_connected(
             // No need to wait for stuff to finish because not even the first stream request went through
             return Ok(());
         } else {
+            // If the connection task has ended, its own result tells why the request failed
+            if let Some(result) = mux_task_joinset.try_join_next() {
+                result.expect("Task panicked (this is a bug)")?;
+            }
             return Err(e);
         }
     }
@@ -425,6 +429,11 @@ async fn on_connected(
                     if matches!(e, Error::Cancelled) {
                         break;
                     } else {
+                        // If the connection task has ended, its own (possibly fatal) result
+                        // must not be masked by the retryable failure of this request
+                        if let Some(result) = mux_task_joinset.try_join_next() {
+                            result.expect("Task panicked (this is a bug)")?;
+                        }
                         return Err(e);
                     }
                 }
